@@ -29,6 +29,10 @@ pub enum WriteFault {
     Zero { k: usize },
     /// k-th poll_write returns Pending once (and wakes)
     Pending { k: usize },
+    /// k-th start_seek fails with EIO (position unchanged)
+    SeekFail { k: usize },
+    /// k-th poll_read fails with EIO
+    ReadFail { k: usize },
 }
 #[derive(Clone, Copy, Debug, Serialize, Deserialize, PartialEq)]
 pub enum FaultKind {
@@ -60,6 +64,8 @@ pub struct MemOutput {
     pub counter: Arc<std::sync::atomic::AtomicUsize>,
     /// accept at most this many bytes per poll_write (like tokio::fs::File's 2 MiB buffer); 0 = unlimited
     pub max_write: usize,
+    pub seeks: usize,
+    pub read_calls: usize,
 }
 
 impl MemOutput {
@@ -80,6 +86,8 @@ impl MemOutput {
             flushes: 0,
             counter: Arc::new(std::sync::atomic::AtomicUsize::new(0)),
             max_write: 0,
+            seeks: 0,
+            read_calls: 0,
         }
     }
     pub fn with_faults(mut self, f: Vec<WriteFault>) -> Self {
@@ -121,6 +129,7 @@ impl AsyncWrite for MemOutput {
         let k = self.poll_writes;
         let fault = self.faults.iter().find(|f| match f {
             WriteFault::Cut { k: fk, .. } | WriteFault::Fail { k: fk, .. } | WriteFault::Short { k: fk, .. } | WriteFault::Zero { k: fk } | WriteFault::Pending { k: fk } => *fk == k,
+            WriteFault::SeekFail { .. } | WriteFault::ReadFail { .. } => false,
         }).cloned();
         if let Some(WriteFault::Pending { .. }) = fault {
             if !self.pending_done {
@@ -189,6 +198,12 @@ impl AsyncRead for MemOutput {
         if self.dead {
             return Poll::Ready(Err(dead_err()));
         }
+        let rk = self.read_calls;
+        self.read_calls += 1;
+        if self.faults.iter().any(|f| matches!(f, WriteFault::ReadFail { k } if *k == rk)) {
+            self.fault_fired = true;
+            return Poll::Ready(Err(io::Error::from_raw_os_error(libc::EIO)));
+        }
         let pos = self.pos as usize;
         if pos < self.data.len() {
             let n = buf.remaining().min(self.data.len() - pos);
@@ -204,6 +219,12 @@ impl AsyncSeek for MemOutput {
     fn start_seek(mut self: Pin<&mut Self>, position: SeekFrom) -> io::Result<()> {
         if self.dead {
             return Err(dead_err());
+        }
+        let sk = self.seeks;
+        self.seeks += 1;
+        if self.faults.iter().any(|f| matches!(f, WriteFault::SeekFail { k } if *k == sk)) {
+            self.fault_fired = true;
+            return Err(io::Error::from_raw_os_error(libc::EIO));
         }
         let np = match position {
             SeekFrom::Start(p) => p as i128,
